@@ -219,7 +219,40 @@ int toInt(const std::string& s, char scientificNotation)
 {
   if (!isDecimalInteger(s, scientificNotation))
     throw Exception("TextTools::toInt(). Invalid number specification: " + s);
-  return fromString<int>(s);
+  // s is -?d+ or -?d+<e>+?d+: the value is mantissa * 10^exponent, computed in a
+  // long long that saturates just above the range of int.
+  const long long lim = 2147483648LL; // -INT_MIN
+  const bool neg = (s[0] == '-');
+  size_t i = neg ? 1 : 0;
+  long long m = 0;
+  for ( ; i < s.size() && s[i] != scientificNotation; ++i)
+  {
+    m = m * 10 + (s[i] - '0');
+    if (m > lim)
+      m = lim + 1;
+  }
+  if (i < s.size())
+  {
+    ++i;
+    if (s[i] == '+')
+      ++i;
+    long long e = 0;
+    for ( ; i < s.size(); ++i)
+    {
+      e = e * 10 + (s[i] - '0');
+      if (e > 10)
+        e = 11; // 10^11 is out of range already
+    }
+    for ( ; e > 0 && m != 0; --e)
+    {
+      m = m * 10;
+      if (m > lim)
+        m = lim + 1;
+    }
+  }
+  if (neg ? m > lim : m >= lim)
+    throw Exception("TextTools::toInt(). Number out of the range of int: " + s);
+  return static_cast<int>(neg ? -m : m);
 }
 
 /******************************************************************************/
